@@ -403,7 +403,7 @@ namespace ST
                             int_T value) \
     { \
         if (format.digit_class == ST::digit_char) \
-            _ST_PRIVATE::format_char(format, output, static_cast<int>(value)); \
+            _ST_PRIVATE::format_char(format, output, static_cast<unsigned long long>(value)); \
         else \
             _ST_PRIVATE::format_numeric_s<int_T>(format, output, value); \
     } \
@@ -412,7 +412,7 @@ namespace ST
                             uint_T value) \
     { \
         if (format.digit_class == ST::digit_char) \
-            _ST_PRIVATE::format_char(format, output, static_cast<int>(value)); \
+            _ST_PRIVATE::format_char(format, output, static_cast<unsigned long long>(value)); \
         else \
             _ST_PRIVATE::format_numeric_u<uint_T>(format, output, value); \
     }
